@@ -242,7 +242,8 @@ fn sign(w: &mut World, op: &Value) -> R<Value> {
         },
     };
     w.bump("call.sm2.sign");
-    let (out, log) = run_lib(&script, || Sm2PrivateKey::new(&d).and_then(|sk| sk.sign(lib_id, &msg)));
+    let msg_p = crate::place::Placed::new(&msg, w.next_place());
+    let (out, log) = run_lib(&script, || Sm2PrivateKey::new(&d).and_then(|sk| sk.sign(lib_id, msg_p.as_slice())));
     let (class, sig) = match out {
         Outcome::Done(Ok(s)) => (Class::Ok, Some(s)),
         Outcome::Done(Err(_)) => (Class::Err, None),
@@ -338,7 +339,8 @@ fn verify(w: &mut World, op: &Value) -> R<Value> {
     };
     w.bump("call.sm2.verify");
     let lpk = lib_pk_captured(w, &pkb, &via, case);
-    let out = run_lib_norng(|| lpk.ok_or(()).and_then(|pk| pk.verify(lib_id, &msg, &sig).map_err(|_| ())));
+    let (msg_p, sig_p) = (crate::place::Placed::new(&msg, w.next_place()), crate::place::Placed::new(&sig, w.next_place()));
+    let out = run_lib_norng(|| lpk.ok_or(()).and_then(|pk| pk.verify(lib_id, msg_p.as_slice(), sig_p.as_slice()).map_err(|_| ())));
     let class = match out {
         Outcome::Done(Ok(())) => Class::Ok,
         Outcome::Done(Err(())) => Class::Err,
@@ -420,9 +422,10 @@ fn encrypt(w: &mut World, op: &Value) -> R<Value> {
     }
     w.bump(if asn1 { "call.sm2.encrypt_asn1" } else { "call.sm2.encrypt" });
     let lpk = lib_pk_captured(w, &pkb, &via, case);
+    let msg_p = crate::place::Placed::new(&msg, w.next_place());
     let (out, log) = run_lib(&script, || {
         lpk.ok_or(()).and_then(|pk| {
-            if asn1 { pk.encrypt_asn1(&msg, comp, lmodel) } else { pk.encrypt(&msg, comp, lmodel) }.map_err(|_| ())
+            if asn1 { pk.encrypt_asn1(msg_p.as_slice(), comp, lmodel) } else { pk.encrypt(msg_p.as_slice(), comp, lmodel) }.map_err(|_| ())
         })
     });
     let (class, ct) = match out {
@@ -541,9 +544,10 @@ fn decrypt(w: &mut World, op: &Value) -> R<Value> {
     }
     let site = if asn1 { "sm2.decrypt_asn1" } else { "sm2.decrypt" };
     w.bump(&format!("call.{site}"));
+    let ct_p = crate::place::Placed::new(&ct, w.next_place());
     let out = run_lib_norng(|| {
         Sm2PrivateKey::new(&d).map_err(|_| ()).and_then(|sk| {
-            if asn1 { sk.decrypt_asn1(&ct, comp, lmodel) } else { sk.decrypt(&ct, comp, lmodel) }.map_err(|_| ())
+            if asn1 { sk.decrypt_asn1(ct_p.as_slice(), comp, lmodel) } else { sk.decrypt(ct_p.as_slice(), comp, lmodel) }.map_err(|_| ())
         })
     });
     let (class, m) = match out {
